@@ -668,3 +668,43 @@ func c03SliceWindow(c *Ctx, cp *copier, rule string) {
 		c.bad(rule, "copier", cp.hSlice.Pos(), "no reflect.MakeSlice found in the copier")
 	}
 }
+
+// c03OverlayNotRecopied: compose hands the overlayer a private deep copy of each source value, in which all
+// references to one pointee already share one copy. A second pass of the copier over (part of) that copy gives
+// the pointers inside it a second identity, distinct from the other references to the same pointees (D35). So
+// no value derived from the overlay operand of an overlayer method may be fed to the deep copier as input.
+func c03OverlayNotRecopied(c *Ctx, cp *copier, rule string) {
+	w := c.W
+	n := 0
+	for _, f := range w.funcsIn("") {
+		if f.Signature.Recv() == nil || !strings.HasSuffix(types.TypeString(f.Signature.Recv().Type(), nil), "overlayer") || len(f.Params) < 3 {
+			continue
+		}
+		ov := ssa.Value(f.Params[len(f.Params)-1])
+		c.analysed(relName(f))
+		bad := false
+		for _, i := range allInstrs(f) {
+			ci, ok := i.(*ssa.Call)
+			if !ok {
+				continue
+			}
+			callee := staticCallee(ci)
+			if callee == nil || !(cp.scc[callee] || callee == origin(cp.valM)) {
+				continue
+			}
+			in := ci.Call.Args[1]
+			n++
+			fromOv := derivesAny(in, func(v ssa.Value) bool { return v == ov }, &flowOpts{through: map[string]bool{"(reflect.Value).Elem": true, "(reflect.Value).Index": true, "(reflect.Value).Field": true, "(reflect.Value).Slice": true}})
+			if fromOv {
+				bad = true
+				c.bad(rule, relName(f)+"#"+callee.Name(), ci.Pos(), "the overlayer deep-copies %s, a part of its overlay operand, a second time: pointers inside it get a second copy, so references that were identical in the source value (an array element in an interface field and a slice element) differ in the result", canon(in))
+			}
+		}
+		if !bad {
+			c.ok(rule, relName(f), f.Pos(), "no part of the overlay operand is fed to the deep copier again")
+		}
+	}
+	if n == 0 {
+		c.okTrivial(rule, "overlayer", token.NoPos, "the overlayer never calls the deep copier")
+	}
+}
